@@ -9,7 +9,7 @@ from job_shop_lib.dispatching.feature_observers import IsCompletedObserver
 from job_shop_lib.graphs.graph_updaters import ResidualGraphUpdater
 
 from .. import gen, obs
-from ..lib import build_filter, build_instance, ref
+from ..lib import build_filter, build_instance, disturb, fork, ref
 
 ID = "C17"
 RULE = (
@@ -18,7 +18,7 @@ RULE = (
     "(remove_completed_machine_nodes / job_nodes) x optional filter "
     "composition x whether an IsCompletedObserver already exists x choice "
     "sequence (among available operations); updater attached before the first "
-    "dispatch; optionally 1-3 resets, the checks continuing in every following episode. Oracle after every "
+    "dispatch; optionally 1-3 resets, the checks continuing in every following episode; optionally the dispatcher (updater included) is deep-copied at a generated step, the original played on, and the checks continue on the copy and its graph. Oracle after every "
     "dispatch with the independent model's scheduled / completed sets: "
     "completed ops subseteq removed op nodes subseteq scheduled ops; a machine "
     "(job) node is removed only if every operation eligible on it (of it) is "
@@ -48,6 +48,7 @@ def strategy(tier):
             "pre_observer": st.sampled_from([None, None, ["machines", "jobs"], ["operations"], ["jobs"]]),
             "history": gen.histories(max_len=44),
             "reset_at": st.one_of(st.none(), st.integers(0, 20)),
+            "fork": gen.pick([None, 1, None, 0, None, 4, None, 2]),
             "extra_resets": st.integers(0, 2),
             "deferred": st.booleans(),
             "attach_after": st.one_of(st.just(0), st.just(0), st.integers(1, 6)),
@@ -138,12 +139,23 @@ def check_case(case, ctx):
     lag = early = False
     pos = 0
     episodes = (2 + case.get("extra_resets", 0)) if case["reset_at"] is not None else 1
+    fork_at = case.get("fork")
     for ep in range(episodes):
         m = ref(inst) if not (ep == 0 and attach_after) else pre_model
         prev_removed = None
         n = m.n_ops
         limit = n if ep == episodes - 1 else min(case["reset_at"], n)
         for k in range(m.count(), limit):
+            if fork_at is not None and k >= fork_at:
+                # a planner deep-copies the dispatcher (updater included); the
+                # original is played on for a few steps and the checks
+                # continue on the copy and ITS graph
+                fork_at = None
+                idx = next(i for i, s_ in enumerate(d.subscribers) if s_ is upd)
+                clone, cmodel = fork(d, m)
+                disturb(d, m, inst, 3)
+                d, m, upd, instance = clone, cmodel, clone.subscribers[idx], clone.instance
+                ctx.label("forked")
             a, b = history[pos] if pos < len(history) else (0, 0)
             pos += 1
             avail = m.available(case["filters"])
